@@ -243,6 +243,43 @@ let replay_acprune ~id (f : itree) (g : itree) (h1 : itree) (log : Sexp.t list) 
      | None -> ())
 (* x-acprune end ----------------------------------------------------------------------------------------------- *)
 
+(* x-aelim begin -----------------------------------------------------------------------------------------------
+   arena-level machine of infeasible_elimination (Pwl/AElim.v: DfsPre stack / last_push / skip_subtree, the predicates
+   stack of PolyhedraGen, the to_remove queue, forward_if_redundant = remove_child + merge_child_with_parent in the
+   middle of the traversal, the final removal loop) run on the dumped arena BEFORE with the logged LP / mirror answers;
+   the arena it returns is compared cell by cell, by index (value, state, parent, children, leaf flag), with the dumped
+   arena AFTER.  AElimRefine.v proves that the machine computes Elim.v's `elim` (C03_arena_elim_refines). *)
+let replay_aelim ~id (b : itree) (a : itree) (log : Sexp.t list) : unit =
+  let lps = List.filter_map (function List (Atom "lp" :: _ :: _ :: st :: _) -> Some (lpans_of st) | _ -> None) log in
+  let mirs = List.filter_map (function
+      | List [Atom "mir"; _; _; _; Atom "none"] -> Some None
+      | List [Atom "mir"; _; _; _; List [Atom "some"; m; _]] -> Some (Some (mat_of m))
+      | _ -> None) log in
+  let ab = arena_of b and aa = arena_of a in
+  let root = (match b.root with Some r -> r | None -> 0) in
+  match aelim (oracle_of_logs lps mirs) tol ab (nat_of_int root) with
+  | None -> bump "aelim_arena_differs"; result id "MIRROR" "aelim-arena" "the arena-level machine panics or runs out of fuel"
+  | Some (am, k) ->
+    if arena_eqb am aa then begin
+      bump "aelim_arena_same";
+      if int_of_nat k.k_lp = List.length lps && int_of_nat k.k_mir = List.length mirs then bump "aelim_arena_same_and_call_counts"
+    end else begin
+      bump "aelim_arena_differs";
+      let get l i = (match List.nth_opt l i with Some (Some c) -> Some c | _ -> None) in
+      let n = max (List.length am) (List.length aa) in
+      let rec first i = if i >= n then -1 else
+          (match get am i, get aa i with
+           | None, None -> first (i + 1)
+           | Some x, Some y when acell_eqb x y -> first (i + 1)
+           | _ -> i) in
+      let i = first 0 in
+      let what = (match get am i, get aa i with
+          | Some _, None -> "present in the model only" | None, Some _ -> "present in the implementation only"
+          | _ -> "cells differ") in
+      result id "MIRROR" "aelim-arena" (Printf.sprintf "first difference at index %d: %s" i what)
+    end
+(* x-aelim end ------------------------------------------------------------------------------------------------- *)
+
 let check (case : Sexp.t) : unit =
   match case with
   | List [Atom "case"; Atom id; Atom "elim"; Atom gen; sb; Atom oc; sa; counter; List (Atom "log" :: log); sa2; counter2; List (Atom "pts" :: pts)] ->
@@ -267,6 +304,7 @@ let check (case : Sexp.t) : unit =
             | None -> result id "VIOL" "abs" "result arena is not a tree"
             | Some pa ->
               (try replay_elim b a log with Nonfinite -> bump "mirror_nonfinite");
+              (* x-aelim *) (try replay_aelim ~id b a log with Nonfinite -> bump "aelim_arena_nonfinite");
               let ok1 = equiv_mod_thin ~id ~tag:"elim-preserves" n pa pb in
               let ok2 = points_check ~id ~tag:"evaluate" pa pts in
               if ok1 && ok2 then result id "OK" "elim" "")
